@@ -347,9 +347,14 @@ def r46_interrupt_plumbing(ctx):
     ok_init = all(isinstance(s.value, ast.Constant) and s.value.value is False and s.lineno < h.lineno for s in other) and bool(other)
     ctx.check(ok_init, R, other[0] if other else h, main, 'the interrupt flag is False unless the handler ran',
               '%s = False before the count; set True only in the handler' % flag, 'the flag is assigned elsewhere')
+    # the local holding the election object: assigned from Election(...)
+    enames = [s.targets[0].id for s in main.own_nodes() if isinstance(s, ast.Assign) and isinstance(s.targets[0], ast.Name)
+              and isinstance(s.value, ast.Call) and unparse(s.value.func).split('.')[-1] == 'Election']
+    need(len(set(enames)) == 1, 'R46: Droop.main does not build exactly one Election object')
+    ename = enames[0]
     for m in ('report', 'dump', 'json'):
         calls = [c for c in main.own_nodes() if isinstance(c, ast.Call) and isinstance(c.func, ast.Attribute)
-                 and c.func.attr == m and isinstance(c.func.value, ast.Name) and c.func.value.id == 'E']
+                 and c.func.attr == m and isinstance(c.func.value, ast.Name) and c.func.value.id == ename]
         okc = bool(calls) and all((c.args and isinstance(c.args[0], ast.Name) and c.args[0].id == flag)
                                   or any(k.arg == 'intr' and isinstance(k.value, ast.Name) and k.value.id == flag for k in c.keywords)
                                   for c in calls)
